@@ -208,6 +208,24 @@ func c19Eval(r *core.Run, c *c19Case) {
 			_ = os.WriteFile(src, bytes.ReplaceAll(orig, []byte("(p0 "), []byte("(extra0 string, p0 ")), 0o644)
 		case "arity-int":
 			_ = os.WriteFile(src, bytes.ReplaceAll(bytes.ReplaceAll(orig, []byte("(p0 "), []byte("(extra0 int, p0 ")), []byte("(p0, "), []byte("(extra0 int, p0, ")), 0o644)
+		case "older-short", "older-exact", "older-long":
+			// an older, valid revision of the file that ends right around the line of one of the frames
+			f := bp.prog.Funcs[(c.Idx*7)%len(bp.prog.Funcs)]
+			n := f.CallLine - 1 // lines in the file: the frame's line is one past the end
+			body := "package main\n\nfunc old(a int) {}\n"
+			switch c.Mismatch {
+			case "older-exact":
+				n = f.CallLine // the frame's line is the last line, without a trailing newline
+			case "older-long":
+				n = f.CallLine + 1
+			}
+			for k := 3; k < n; k++ {
+				body += "// older revision\n"
+			}
+			if c.Mismatch == "older-exact" {
+				body = strings.TrimSuffix(body, "\n")
+			}
+			_ = os.WriteFile(src, []byte(body), 0o644)
 		case "arity-less":
 			// the source declares fewer parameters than the binary passes
 			_ = os.WriteFile(src, regexp.MustCompile(`(?m)^(func [^\n]*)\(p0 [^,)]+, `).ReplaceAll(orig, []byte("$1(")), 0o644)
@@ -320,8 +338,8 @@ func runC19(r *core.Run) {
 		tools = append(tools, "go1.26.8")
 	}
 	np := r.N(40, 300)
-	mism := []string{"delete", "truncate", "shift", "arity", "syntax", "directory", "symlink", "empty", "other-package", "arity-int", "arity-less", "mutated-trace", "mutated-trace", "arity-int"}
-	nm := r.N(56, 900)
+	mism := []string{"delete", "truncate", "shift", "arity", "syntax", "directory", "symlink", "empty", "other-package", "arity-int", "arity-less", "mutated-trace", "mutated-trace", "arity-int", "older-short", "older-exact", "older-long", "older-short", "older-exact"}
+	nm := r.N(76, 1200)
 	type job struct{ c c19Case }
 	var jobs []c19Case
 	for _, t := range tools {
